@@ -180,11 +180,27 @@ def probe(ctx):
         if exc is not None or 1234 not in C.nodes:
             ctx.violation(f"{cname}.copy", "copy-not-editable", {"class": cname}, detail=f"copy of a frozen network not editable: {exc!r}")
         if cls is not xgi.DiHypergraph:
-            S = xgi.subhypergraph(build(cls, rng), nodes=[0, 1, 2, 3])
-            b = structure(S)
-            exc = call_quiet(S.add_node, 99)
-            if not S.is_frozen or not isinstance(exc, XGIError) or structure(S) != b:
-                ctx.violation("subhypergraph", "result-not-frozen", {"class": cname}, detail=f"subhypergraph result: is_frozen={S.is_frozen}, add_node -> {exc!r}")
+            import inspect as _insp
+            params = _insp.signature(xgi.subhypergraph).parameters
+            variants = [dict(nodes=[0, 1, 2, 3]), dict(edges=list(build(cls, rng).edges)[:2]), dict(nodes=[0, 1, 2, 3, 9], edges=list(build(cls, rng).edges)[:2]), dict()]
+            flags = [{}]
+            for pname, par in params.items():   # every boolean option of subhypergraph, both values
+                if isinstance(par.default, bool):
+                    flags = [dict(f, **{pname: v}) for f in flags for v in (True, False)]
+            for var in variants:
+                for fl in flags:
+                    kw = dict(var, **fl)
+                    try:
+                        S = xgi.subhypergraph(build(cls, rng), **kw)
+                    except Exception:  # noqa
+                        continue
+                    ctx.evaluations += 1
+                    b = structure(S)
+                    exc = call_quiet(S.add_node, 99)
+                    exc2 = call_quiet(S.remove_node, 0) if 0 in S.nodes else XGIError("n/a")
+                    if not S.is_frozen or not isinstance(exc, XGIError) or not isinstance(exc2, XGIError) or structure(S) != b:
+                        ctx.violation("subhypergraph", "result-not-frozen", {"class": cname, "kwargs": repr(kw)},
+                                      detail=f"subhypergraph({kw}) result: is_frozen={S.is_frozen}, add_node -> {exc!r}, remove_node -> {exc2!r}")
     ctx.extra["structural_mutators_found_by_probing"] = mutators
     return mutators
 
